@@ -1266,7 +1266,7 @@ class Stack(list):
         #     if version < 2:
         #         return False
         # return True
-        return NotImplementedError
+        raise NotImplementedError("OP_CHECKSEQUENCEVERIFY is not implemented")
 
     def op_nop4(self):
         return True
